@@ -291,6 +291,9 @@ def _worker(args):
             meta.update(meta2)
         else:
             gp = {k: v for k, v in profile.items() if not k.startswith("_")}
+            from props import info
+            gp.setdefault("period", info()["periodTicks"])            # the generator places sweeps and absences
+            gp.setdefault("expiration", info()["expirationTicks"])    # relative to the CURRENT constants of /repo
             history = gen.generate(seed, **gp)
         if idx < 6 and not profile.get("_special"):
             r, hit = _trace_lines(lambda: run_history(pid, history, meta))
